@@ -47,7 +47,6 @@ say "== demo with the change"
 if rundemo; then say "patched: demo PASSES (change not confirmed)"; else say "patched: demo FAILS (confirmed)"; fi
 for id in "$@"; do
   say "== check $id against the change"
-  VERIF_REPO=$WT /verif/check $id --tier quick 2>&1 | grep -E "^(VIOLATION|OK|INCONCLUSIVE|KNOWN)" | cut -c1-200 | tee -a $LOG
+  VERIF_ALT_OUT=$WT/out/alt-$K VERIF_REPO=$WT /verif/check $id --tier quick 2>&1 | grep -E "^(VIOLATION|OK|INCONCLUSIVE|KNOWN)" | cut -c1-200 | tee -a $LOG
 done
 clean
-for id in "$@"; do rm -f /verif/replays/$id-*-seed1.* 2>/dev/null; done
